@@ -4,11 +4,13 @@ import LsModel.DriverStrat
 import LsModel.DriverDup
 import LsModel.DriverTxn
 import LsModel.DriverCleaner
+import LsModel.DriverCfg
+import LsModel.DriverName
 /- lsdriver: one operation per input line, exactly one canonical output line per operation. -/
 open Ls.Drv
 
 /-- stateless operations -/
-def handlers : List (String → List String → Option String) := [opHeader, opMerge, opC02, opStrat, opDup]
+def handlers : List (String → List String → Option String) := [opHeader, opMerge, opC02, opStrat, opDup, opCfg, opName]
 
 /-- operations that read or update the driver state -/
 def statefulHandlers : List (String → List String → DrvState → Option (DrvState × String)) := [opTxn, opCleaner]
